@@ -19,13 +19,13 @@ pub struct AutomatonDump {
     /// The pattern texts as stored in the automaton (debug information of the crate).
     pub patterns: Vec<String>,
     /// The token types in priority order.
-    pub terminal_ids: Vec<u32>,
+    pub terminal_ids: Vec<u64>,
     /// For each state its transitions as pairs of character class id and target state.
     pub states: Vec<Vec<(u32, u32)>>,
     /// For each state the token type it accepts, if it is accepting.
-    pub accepting: Vec<Option<u32>>,
+    pub accepting: Vec<Option<u64>>,
     /// The lookaheads as (token type, is_positive, automaton).
-    pub lookaheads: Vec<(u32, bool, AutomatonDump)>,
+    pub lookaheads: Vec<(u64, bool, AutomatonDump)>,
 }
 
 /// A plain copy of a compiled scanner mode.
@@ -34,7 +34,7 @@ pub struct ModeDump {
     /// The name of the mode.
     pub name: String,
     /// The transitions as pairs of token type and target mode.
-    pub transitions: Vec<(u32, usize)>,
+    pub transitions: Vec<(u64, usize)>,
     /// The compiled automaton of the mode.
     pub automaton: AutomatonDump,
 }
@@ -53,15 +53,15 @@ pub struct CacheEvent {
 }
 
 pub(crate) fn dump_automaton(dfa: &CompiledDfa) -> AutomatonDump {
-    let mut lookaheads: Vec<(u32, bool, AutomatonDump)> = dfa
+    let mut lookaheads: Vec<(u64, bool, AutomatonDump)> = dfa
         .lookaheads
         .iter()
-        .map(|(t, l)| (t.id(), l.is_positive, dump_automaton(&l.nfa)))
+        .map(|(t, l)| (t.id() as u64, l.is_positive, dump_automaton(&l.nfa)))
         .collect();
     lookaheads.sort_by_key(|l| l.0);
     AutomatonDump {
         patterns: dfa.patterns.clone(),
-        terminal_ids: dfa.terminal_ids.iter().map(|t| t.id()).collect(),
+        terminal_ids: dfa.terminal_ids.iter().map(|t| t.id() as u64).collect(),
         states: dfa
             .states
             .iter()
@@ -75,7 +75,7 @@ pub(crate) fn dump_automaton(dfa: &CompiledDfa) -> AutomatonDump {
         accepting: dfa
             .end_states
             .iter()
-            .map(|(a, t)| if *a { Some(t.id()) } else { None })
+            .map(|(a, t)| if *a { Some(t.id() as u64) } else { None })
             .collect(),
         lookaheads,
     }
@@ -92,7 +92,7 @@ impl Scanner {
                 transitions: m
                     .transitions
                     .iter()
-                    .map(|(t, m)| (t.id(), m.as_usize()))
+                    .map(|(t, m)| (t.id() as u64, m.as_usize()))
                     .collect(),
                 automaton: dump_automaton(&m.dfa),
             })
